@@ -67,6 +67,13 @@ def emit_item(it, ctx, meta, modpath, emit_items, weave_fn, filter_attrs, strip_
                 t = text_of(c.toks)
                 m = re.match(r"\s*(pub(?:\([a-z]+\))?\s+)?const\s+(\w+)(.*)$", t, re.S)
                 init = re.sub(r"\bSelf\b", it.impl_type, m.group(3))
+                mi = re.match(r"(\s*:\s*[^=]+=\s*)(\w+)\s*::\s*([A-Z][A-Z0-9_]*)\s*;\s*$", init, re.S)
+                if mi and (mi.group(2), mi.group(3)) not in ctx.hoisted:
+                    val = ctx.impl_consts.get((mi.group(2), mi.group(3)), ctx.trait_consts.get(mi.group(3)))
+                    if val is not None and re.fullmatch(r"[0-9a-fA-Fx_]+", val):
+                        ctx.log.append({"rule": "R17", "file": ctx.cur_file, "line": c.line,
+                                        "what": "initializer %s::%s of %s::%s resolved to %s" % (mi.group(2), mi.group(3), it.impl_type, c.name, val)})
+                        init = mi.group(1) + val + ";"
                 hoisted.append("pub const VPC_%s_%s%s" % (it.impl_type, m.group(2), init))
                 ctx.log.append({"rule": "R17", "file": ctx.cur_file, "line": c.line,
                                 "what": "hoisted %s::%s to a module-level constant" % (it.impl_type, c.name)})
@@ -634,6 +641,18 @@ def collect_hoisted(items, ctx, modpath):
     for it in items:
         if it.kind == "mod" and it.children:
             collect_hoisted(it.children, ctx, it.key)
+        if it.kind == "trait":
+            for c in it.children:
+                if c.kind == "const":
+                    m = re.search(r"=\s*(.*?)\s*;\s*$", text_of(c.toks), re.S)
+                    if m:
+                        ctx.trait_consts[c.name] = m.group(1)
+        if it.kind == "impl" and it.impl_trait is not None:
+            for c in it.children:
+                if c.kind == "const":
+                    m = re.search(r"=\s*(.*?)\s*;\s*$", text_of(c.toks), re.S)
+                    if m:
+                        ctx.impl_consts[(it.impl_type, c.name)] = m.group(1)
         if it.kind == "impl" and it.impl_trait is None and re.search(r"impl\s*<\s*'", text_of(it.header)):
             for c in it.children:
                 if c.kind == "const":
